@@ -513,6 +513,9 @@ structure Facts where
   resortUpdated : FResort
   resortExpire : FResort
   resortValue : FResort
+  /-- the gateway converts window bounds and record timestamps with their nanosecond part
+      (`AsTime()`), as the model's integer timestamps assume -/
+  timestampsFullPrecision : Tri
   /-- `GetManyFromOrderPosition` has exactly the modelled arithmetic -/
   pageArith : Tri
   /-- `GetTreasuresByBeacon` replaces limit 0 by the record count -/
@@ -570,6 +573,7 @@ def unknownFact (f : Facts) : Option String :=
     some "a binary search of findTimeRangeBounds" else
   if f.resortKey == .unknown || f.resortCreated == .unknown || f.resortUpdated == .unknown ||
      f.resortExpire == .unknown || f.resortValue == .unknown then some "an addTo…Beacon function" else
+  if !f.timestampsFullPrecision.isYes then some "gateway timestamp conversion" else
   if !f.pageArith.isYes then some "GetManyFromOrderPosition arithmetic" else
   if !f.limitZeroAll.isYes then some "GetTreasuresByBeacon limit==0" else
   if !f.comparatorsStandard.isYes then some "a SortBy… comparator" else
